@@ -80,6 +80,7 @@ func harnessFiles(prop string, native bool) map[string]string {
 	m[filepath.Join(repoDir, "zz_verif_rt.go")] = filepath.Join(hd, rt)
 	if native {
 		m[filepath.Join(repoDir, "zz_verif_rt_json.go")] = filepath.Join(hd, "rt_native_json.go.txt")
+		m[filepath.Join(repoDir, "zz_verif_rt_struct.go")] = filepath.Join(hd, "rt_native_struct.go.txt")
 	}
 	ents, _ := os.ReadDir(hd)
 	lp := strings.ToLower(prop)
@@ -166,7 +167,7 @@ type nativeResult struct {
 }
 
 // runNative executes the vectors against the real build (go test -overlay).
-func runNative(prop string, harnessNames []string, vf *vecFile, work string) ([]nativeResult, string, error) {
+func runNative(prop string, harnessNames []string, vf *vecFile, work string, race bool) ([]nativeResult, string, error) {
 	// registry file
 	var sb strings.Builder
 	sb.WriteString("package jsonapi\n\nvar vHarnesses = map[string]func(){\n")
@@ -188,10 +189,25 @@ func runNative(prop string, harnessNames []string, vf *vecFile, work string) ([]
 	resPath := filepath.Join(work, "results.json")
 	os.WriteFile(vecPath, vb, 0o644)
 	os.Remove(resPath)
-	cmd := exec.Command("go", "test", "-vet=off", "-count=1", "-run", "^TestVerifReplay$", "-overlay", ovf, "-timeout", "20m", ".")
+	args := []string{"test", "-vet=off", "-count=1", "-run", "^TestVerifReplay$", "-overlay", ovf, "-timeout", "20m"}
+	env := append(goEnv(), "VERIF_VECTORS="+vecPath, "VERIF_RESULTS="+resPath)
+	if race {
+		args = append(args, "-race")
+		env = append(env, "VERIF_RACE=1", "CGO_ENABLED=1", "GORACE=halt_on_error=0")
+	}
+	args = append(args, ".")
+	cmd := exec.Command("go", args...)
 	cmd.Dir = repoDir
-	cmd.Env = append(goEnv(), "VERIF_VECTORS="+vecPath, "VERIF_RESULTS="+resPath)
+	cmd.Env = env
 	out, err := cmd.CombinedOutput()
+	if race {
+		// the race detector makes the test fail; what matters is its report
+		var res []nativeResult
+		if rb, e := os.ReadFile(resPath); e == nil {
+			json.Unmarshal(rb, &res)
+		}
+		return res, string(out), nil
+	}
 	if err != nil {
 		return nil, string(out), fmt.Errorf("native replay failed: %v", err)
 	}
@@ -375,7 +391,7 @@ func check(prop string, args []string) int {
 	nativeLog := ""
 	if !*noNative && len(vf.Vectors) > 0 {
 		var err error
-		results, nativeLog, err = runNative(prop, allH, vf, work)
+		results, nativeLog, err = runNative(prop, allH, vf, work, false)
 		if err != nil {
 			fmt.Printf("INCONCLUSIVE property=%s native replay could not run: %v\n%s\n", prop, err, tail(nativeLog, 30))
 		} else {
@@ -428,6 +444,40 @@ func check(prop string, args []string) int {
 					confirmedFindings[v.ID] = true
 				}
 			}
+		}
+	}
+	// shared-write counterexamples (C12) cannot fail natively in a sequential run: confirm them
+	// by running the operation in several goroutines under the race detector
+	if nativeOK && unreproduced > 0 {
+		raceTried := map[string]bool{}
+		for i, r := range results {
+			v := vf.Vectors[i]
+			if v.Purpose != "violation" || !strings.Contains(v.ID, "no-shared-write") || (r.Match && !r.Skipped) || raceTried[v.ID] || len(raceTried) >= 6 {
+				continue
+			}
+			raceTried[v.ID] = true
+			one := &vecFile{Known: vf.Known, Tier: vf.Tier, Vectors: []nativeVect{v}}
+			rwork := filepath.Join(work, "race")
+			os.MkdirAll(rwork, 0o755)
+			_, rlog, _ := runNative(prop, allH, one, rwork, true)
+			if strings.Contains(rlog, "WARNING: DATA RACE") {
+				os.MkdirAll(replayDir, 0o755)
+				rp := filepath.Join(replayDir, fmt.Sprintf("%s-race.json", sanitize(v.ID)))
+				b, _ := json.MarshalIndent(v, "", " ")
+				os.WriteFile(rp, b, 0o644)
+				os.WriteFile(strings.TrimSuffix(rp, ".json")+".log", []byte(tail(rlog, 60)), 0o644)
+				violLines = append(violLines, fmt.Sprintf("VIOLATION property=%s replay=%s obligation=%s harness=%s (data race confirmed by go test -race)", prop, rp, v.ID, v.Harness))
+				violations++
+				// the sibling vectors of the same obligation are the same finding
+				for j, r2 := range results {
+					if vf.Vectors[j].Purpose == "violation" && vf.Vectors[j].ID == v.ID && !(r2.Match && !r2.Skipped) {
+						unreproduced--
+					}
+				}
+			}
+		}
+		if unreproduced < 0 {
+			unreproduced = 0
 		}
 	}
 	for id := range confirmedFindings {
@@ -565,7 +615,7 @@ func replay(prop, file string) int {
 	os.RemoveAll(work)
 	os.MkdirAll(work, 0o755)
 	defer os.RemoveAll(work)
-	res, log, err := runNative(prop, allH, vf, work)
+	res, log, err := runNative(prop, allH, vf, work, false)
 	if err != nil {
 		fmt.Println(log)
 		fatal("%v", err)
